@@ -84,7 +84,27 @@ def c18(chk, thorough):
         chk.broke('only %d functions reachable from the C18 roots, floor 120' % chk.extra.get('reachable_functions', 0))
 
 
+def c03(chk, thorough):
+    from . import layout
+    chk.explanation = (
+        'Decides the column-layout clause of C03 ("recalculation residuals equal recalculated minus observed response, column '
+        'by column, for every response and every a"): index-role typing over PLS, PLSYPredictor, PLSYPredictorAllLV and the two '
+        'PLS statistics functions: every q*A-column matrix is produced LV-major (column = q*lv + j), every subscript of a '
+        'dimension of role q / A / q*A is an index over the same role, composed columns use multiplier q, decomposed columns '
+        'divide by q. NOT decided: score/weight orthogonality, re-projection equality, the values of b t q^T.')
+    chk.assumptions = ['role seeds: struct-field identities and public parameter positions listed in lsv/layout.py (DESIGN.md Appendix A)']
+    prog = load_program(chk, ['pls.c'])
+    nc, nd = layout.run(chk, prog, {'pls.c': layout.FUNCTIONS['pls.c']})
+    chk.floor('LY.subscript', 30)
+    chk.floor('LY.append', 1)
+    if nc < 3:
+        chk.broke('only %d composing column sites in pls.c, floor 3' % nc)
+    if nd < 1:
+        chk.broke('no decomposing column site in pls.c (the residual loop), floor 1')
+
+
 CHECKS = {
+    'C03': c03,
     'C18': c18,
     'C06': c06,
     'C20': c20,
